@@ -37,7 +37,7 @@ const (
 )
 
 func init() {
-	for _, p := range []string{"C02", "C03", "C04", "C05"} {
+	for _, p := range []string{"C02", "C03", "C04", "C05", "C06"} {
 		p := p
 		scenarios["attack-"+p] = func(t *testing.T, cfg *simrt.Config) simrt.RunFn {
 			return func(tape *simrt.Tape, keep bool) simrt.Outcome { return runAttack(t, cfg, p, tape, keep) }
